@@ -552,10 +552,8 @@ def strand_records(s: Structure, st, index):
             if st.get("jitter"):
                 # coordinates off the ideal template by a few hundredths of an Angstrom (deterministic)
                 v = v + st["jitter"] * (np.array([hash_name(k, 3 * i + c + 1) % 2001 for c in range(3)]) / 1000.0 - 1.0)
-            if not topo.heavy(k) and st.get("hyd", "none") == "none":
-                continue
-            if not topo.heavy(k):
-                continue  # hydrogen naming differs between DNA and RNA templates: heavy atoms only
+            if not topo.heavy(k) and (st.get("hyd", "none") == "none" or dna):
+                continue  # (hydrogen naming differs between DNA and RNA templates: RNA strands only)
             if dna and k == "O2'" and b != "T":
                 continue
             if i == 0 and not st.get("p5", True) and k in ("P", "O1P", "O2P"):
